@@ -22,6 +22,7 @@ RULE = ("(1) *_with_counters files and (2) critical-path overlays written from O
         ">= 2 files written from one object, or >= 3 ranks discovered. Distinct = hash of the case.")
 ASSUMPTIONS = ["analysed events carry an args object (Kineto always writes one)", "no event args contain a '\"rank\": N' pair ahead of the metadata",
                "with only_show_critical_events only markers and flows are judged (events are dropped by design)"]
+FLOAT_KEYS = ["files"]          # fractional-time-unit workload class (hv/shard.py)
 PLAN = {"quick": {"shards": 16, "cases": 384, "timeout": 900}, "thorough": {"shards": 16, "cases": 3000, "timeout": 3400}}
 FLOORS = {"quick": {"distinct_nontrivial": 100, "overlays_checked": 150, "counter_files_checked": 60, "flow_pairs_checked": 2000,
                     "source_events_compared": 12000, "roundtrips": 150, "rank_maps": 50, "second_or_later_file_from_same_object": 80,
